@@ -12,6 +12,12 @@ from typing import Dict, List, Optional
 
 VERIF = os.path.dirname(os.path.dirname(os.path.abspath(__file__)))
 
+
+def evidence_dir() -> str:
+    """/verif/evidence, or a scratch directory when the self-test aims the
+    checks at a mutated copy (those runs must not overwrite real evidence)."""
+    return os.environ.get("VERIF_EVIDENCE_DIR") or os.path.join(VERIF, "evidence")
+
 TRUSTED_BASE = [
     "T1 CPython semantics of the modelled constructs: slice normalisation, % and // on a positive modulus, dict.setdefault/get/pop, chained comparison, try/except/finally, C3 MRO and attribute lookup",
     "T2 re: Pattern.match(s, pos, endpos) is anchored at pos, never reads at or beyond endpos, spans are in coordinates of s; (?i) is ASCII case-insensitive; character classes are set membership",
@@ -83,14 +89,18 @@ class Report(object):
     def finish(self) -> int:
         from .loader import AnalysisError
 
-        for rule, n in self.floors.items():
-            c = self.count(rule)
-            if c < n:
-                raise AnalysisError(
-                    "instance floor not met for rule %s: %d obligation(s), at least %d confirmed by hand" % (rule, c, n)
-                )
         known = load_known_findings().get(self.pid, {})
         failed = [o for o in self.obs if not o.ok]
+        if not failed:
+            # a rule matching nothing passes vacuously forever: fail closed.  (When an obligation already failed, the
+            # missing instances are usually its consequence -- e.g. no containment obligation after a failed inclusion --
+            # and the violation is the more specific report.)
+            for rule, n in self.floors.items():
+                c = self.count(rule)
+                if c < n:
+                    raise AnalysisError(
+                        "instance floor not met for rule %s: %d obligation(s), at least %d confirmed by hand" % (rule, c, n)
+                    )
         unlisted = []
         for o in failed:
             if o.key() in known:
@@ -99,7 +109,7 @@ class Report(object):
                 unlisted.append(o)
         replay = None
         if unlisted:
-            rdir = os.path.join(VERIF, "evidence", "replay")
+            rdir = os.path.join(evidence_dir(), "replay")
             os.makedirs(rdir, exist_ok=True)
             replay = os.path.join(rdir, "%s.json" % self.pid)
             with open(replay, "w") as fh:
@@ -177,7 +187,7 @@ class Report(object):
         ev["assumptions"] = TRUSTED_BASE + self.assumptions + ["VERIF_SEED is recorded but unused: no check makes a random choice"]
         ev["wall_s"] = round(time.time() - self.t0, 3)
         ev["violations"] = violations
-        edir = os.path.join(VERIF, "evidence")
+        edir = evidence_dir()
         os.makedirs(edir, exist_ok=True)
         tmp = os.path.join(edir, ".%s.json.tmp" % self.pid)
         with open(tmp, "w") as fh:
